@@ -203,7 +203,7 @@ Definition ready_names (rc : bool) (s : st) (o : Z) (ups : list Z) : list Z :=
 Inductive op :=
 | OUpsert (name : Z) (aliases : list Z) (servers : list (Z * bool))
 | ODelete (name : Z)
-| OHealthy (eo : Z)                 (* a probe of endpoint object eo is answered 200 *)
+| OHealthy (eo : Z) (ok : bool)     (* a probe of endpoint object eo is answered: 200 (true) or anything else (false) *)
 | OTick (eo : Z)                    (* the health-check timer of eo fires *)
 | OStart (id host : Z) (sub : list Z)
 | OPick (id : Z) (choice : nat)
@@ -216,12 +216,12 @@ Definition step (rc : bool) (s : st) (o : op) : st * list event :=
   match o with
   | OUpsert name aliases sv => (upsert s name aliases sv, [])
   | ODelete name => (delete s name, [])
-  | OHealthy eo =>
+  | OHealthy eo ok =>
       match find_ep s eo with
       | Some e =>
           if probe_done s e then (s, [])
           else (mkSt (names s) (clos s)
-                  (map (fun x => if eobj x =? eo then mkEp (eobj x) (ecl x) (ename x) (elive x) (ecancel x) true (edisabled x) (eprobing x) (pparent x) else x) (eps s))
+                  (map (fun x => if eobj x =? eo then mkEp (eobj x) (ecl x) (ename x) (elive x) (ecancel x) ok (edisabled x) (eprobing x) (pparent x) else x) (eps s))
                   (reqs s) (next s), [])
       | None => (s, [])
       end
